@@ -122,7 +122,20 @@ FILTERED_SHAPES = ["flt", "flt_boxdyn", "flt_arcdyn", "flt_some", "flt_reload", 
                    "flt_inner_box", "flt_inner_some", "flt_inner_reload", "flt2", "flt2_boxdyn", "flt2_reload"]
 MACRO_SHAPES = ["p1", "p2", "p3", "box", "boxdyn", "some", "vec1", "reload", "id_outer", "id_inner", "mid_box", "mid_some", "mid_vec1",
                 "mid_reload", "none_top", "none_mid", "none_bot", "vec0_top", "vec0_mid", "vec0_bot", "none_top1", "vec0_top1",
-                "vec0_dyn_top1", "cbox", "carc", "cboxdyn"]
+                "vec0_dyn_top1", "cbox", "carc", "cboxdyn", "pair_none_o", "pair_none_i", "box_none", "reload_none"]
+# shapes whose innermost layer (the one added directly to the root) is an `and_then` pair
+PAIR_ON_ROOT = ("id_outer", "id_inner", "pair_none_o", "pair_none_i", "pair2", "pair3", "pair_r")
+
+
+def more_permissive(hv, hb):
+    """Is hint hv strictly more permissive than hb?  (None = no hint = everything; 0 = OFF ... 5 = TRACE)"""
+    if hv == hb:
+        return False
+    if hv is None:
+        return True
+    if hb is None:
+        return False
+    return hv > hb
 
 # single wrappers whose table rows are cross-checked method by method: shape -> (row name, trait, baseline, observed leaf id)
 ROW_SHAPES = {
